@@ -1,6 +1,7 @@
 mod alloc;
 mod c04;
 mod c06;
+mod c10;
 mod c13;
 mod c15;
 mod c16;
@@ -77,6 +78,7 @@ fn main() {
 		"c04" => c04::run(&a),
 		"c15" => c15::run(&a),
 		"c13" => c13::run(&a),
+		"c10" => c10::run(&a),
 		"c06" => c06::run(&a),
 		"c16" => c16::run(&a),
 		"c01" => run_generic(Mode::C01, &a, "c01", gen_rule),
